@@ -237,15 +237,18 @@ def run_scenarios(binary, work, tier):
         t0 = time.time()
         srv.p.send_signal(signal.SIGINT)
         c503 = None
+        late = []     # a request can still be accepted between the signal being sent and the process acting on it
         while time.time() - t0 < 2.0 and srv.p.poll() is None:
-            c503, _ = srv.schedule("slow", {"n": 3})
+            c503, jx = srv.schedule("slow", {"n": 3})
             if c503 == 503:
                 break
+            if jx:
+                late.append(jx)
             time.sleep(0.02)
         last_r = srv.detail(jr)[1]
         last = {}
         while srv.p.poll() is None and time.time() - t0 < 15:
-            for jid in (jr, jw, jf, e1, e2):
+            for jid in [jr, jw, jf, e1, e2] + late:
                 c, b = srv.detail(jid)
                 if c == 200:
                     last[jid] = json.loads(b)
@@ -260,10 +263,10 @@ def run_scenarios(binary, work, tier):
         fact("C11", "sigint", "running-job-ran-to-its-end", r_.get("Completed") and not r_.get("Canceled") and all(t.get("Status") == "done" for t in r_.get("Tasks", [{}])), json.dumps(r_)[:200])
         w_ = sj.get(jw, {})
         fact("C11", "sigint", "waiting-job-canceled", w_.get("Canceled") and not w_.get("Start"), json.dumps(w_)[:200])
-        fact("C11", "sigint", "store-all-terminal", all(j.get("Completed") or j.get("Canceled") for j in st["Jobs"]) and len(st["Jobs"]) == 5, len(st["Jobs"]))
+        fact("C11", "sigint", "store-all-terminal", all(j.get("Completed") or j.get("Canceled") for j in st["Jobs"]) and len(st["Jobs"]) == 5 + len(late), len(st["Jobs"]))
         agree = all((jid in sj) and bool(sj[jid].get("Completed")) == bool(v["completed"]) and bool(sj[jid].get("Canceled")) == bool(v["canceled"]) for jid, v in last.items()
                     if v["completed"] or v["canceled"])
-        fact("C11", "sigint", "store-equals-last-report", agree and len(last) == 5, "")
+        fact("C11", "sigint", "store-equals-last-report", agree and len(last) == 5 + len(late), "")
         time.sleep(0.2)
         fact("C20", "sigint", "no-task-process-left", marked(marker) == [], marked(marker))
     finally:
@@ -275,7 +278,7 @@ def run_scenarios(binary, work, tier):
         ids = {j["id"] for j in js["jobs"]}
         fact("C10", "restart", "all-terminal-after-restart", all(j["completed"] or j["canceled"] for j in js["jobs"]), "")
         fact("C10", "restart", "pipelines-schedulable-not-running", all(p["schedulable"] and not p["running"] for p in js["pipelines"]), json.dumps(js["pipelines"])[:200])
-        fact("C10", "restart", "same-job-set", ids == {jr, jw, jf, e1, e2}, len(ids))
+        fact("C10", "restart", "same-job-set", ids == {jr, jw, jf, e1, e2} | set(late), len(ids))
         after_fail = srv.detail(jf)[1]
         fact("C10", "restart", "finished-jobs-identical", after_fail == before_fail and '"lastError"' in after_fail and "0.1234567891" in after_fail,
              "before=%s after=%s" % (before_fail[:150], after_fail[:150]))
